@@ -48,12 +48,15 @@ package publicip
 
 // Cached public IP (C18): a live entry is returned without asking any provider; a failure is not cached.
 //@ func (*PublicIPFetcher).GetIP
-//@ safety C18
+//@ safety C18 C15 C08
 //@ requires[pre.nonnil]        p != nil && p.client != nil && ctx != nil
 //@ requires[pre.cache.type]    cached("source_public_ip") ==> cachedAs("source_public_ip", []byte)
 //@ ensures[C18.pubip.atom]     ret1 != nil ==> ret0 == nil
 //@ ensures[C18.pubip.hit]      old(cached("source_public_ip")) ==> ncalls(GetPublicIP) == old(ncalls(GetPublicIP)) && ret1 == nil
 //@ ensures[C18.pubip.miss]     !old(cached("source_public_ip")) ==> ncalls(GetPublicIP) == old(ncalls(GetPublicIP)) + 1
 //@ ensures[C18.pubip.nofail]   ret1 != nil ==> ghost(cache.has) == old(ghost(cache.has)) && ghost(cache.ref) == old(ghost(cache.ref)) && ghost(cache.exp) == old(ghost(cache.exp))
+// on a miss the caller gets exactly the address the provider chain returned (same bytes, same length: a 16-byte answer is
+// not narrowed, a valid answer is never turned into "no address")
+//@ ensures[C18.pubip.value]    !old(cached("source_public_ip")) && ret1 == nil ==> len(ret0) == len(lastres(GetPublicIP, 0)) && suffixOf(ret0, lastres(GetPublicIP, 0)) && suffixOf(lastres(GetPublicIP, 0), ret0)
 //@ ensures[C18.pubip.store]    !old(cached("source_public_ip")) && ret1 == nil ==> cached("source_public_ip") && cachedAs("source_public_ip", []byte)
 //@ modifies ghost clock, ghost http.doErr, ghost http.readErr, ghost http.status, ghost http.parsed, ghost http.n, ghost cache.has, ghost cache.tag, ghost cache.ref, ghost cache.exp
